@@ -52,6 +52,22 @@ fn fake_pair(n: u32) -> (FuncPtr, CallCountVerifier) {
     }
 }
 
+/// fake!(.., times: N) call sites: one `static FAKE_COUNTER` each, as in a shared set-up helper
+pub fn site(k: u32) -> (FuncPtr, CallCountVerifier) {
+    match k {
+        0 => injectorpp::fake!(func_type: fn(x: u64) -> u64, when: x == 7, returns: 4000, times: 0),
+        1 => injectorpp::fake!(func_type: fn(x: u64) -> u64, when: x == 7, returns: 4001, times: 1),
+        2 => injectorpp::fake!(func_type: fn(x: u64) -> u64, when: x == 7, returns: 4002, times: 2),
+        3 => injectorpp::fake!(func_type: fn(x: u64) -> u64, when: x == 7, returns: 4003, times: 3),
+        4 => injectorpp::fake!(func_type: fn(x: u64) -> u64, when: x == 7, returns: 4004, times: 1),
+        5 => injectorpp::fake!(func_type: fn(_x: u64) -> u64, returns: 4005, times: 2),
+        6 => injectorpp::fake!(func_type: fn(x: u64) -> u64, when: x == 7, returns: 4006),
+        8 => injectorpp::fake!(func_type: fn(x: u64) -> u64, when: x == 7, returns: 4008, times: 64),
+        _ => injectorpp::fake!(func_type: fn(_x: u64) -> u64, returns: 4007, times: 7),
+    }
+}
+pub static PANICS: std::sync::atomic::AtomicUsize = std::sync::atomic::AtomicUsize::new(0);
+
 /// one operation through the public API; panics propagate
 fn do_op(inj: &mut InjectorPP, syms: &Syms, op: &str) -> String {
     let t: Vec<&str> = op.split(':').collect();
@@ -95,7 +111,29 @@ fn do_op(inj: &mut InjectorPP, syms: &Syms, op: &str) -> String {
             inj.when_called(injectorpp::func!(fn (tf)(u64) -> u64)).will_execute_raw(null);
             "installed".into()
         }
+        "T" => {
+            let tf: F1 = unsafe { std::mem::transmute(syms.addr[t[1]] as *const ()) };
+            inj.when_called(injectorpp::func!(fn (tf)(u64) -> u64)).will_execute(site(t[2].parse().unwrap()));
+            "installed".into()
+        }
+        "NOMEM" => {
+            let tf: F1 = unsafe { std::mem::transmute(syms.addr[t[1]] as *const ()) };
+            interpose::MMAP_MODE.store(1, SeqCst);
+            let r = catch_unwind(AssertUnwindSafe(|| inj.when_called(injectorpp::func!(fn (tf)(u64) -> u64)).will_execute_raw(fake_ptr("raw", 0))));
+            interpose::MMAP_MODE.store(0, SeqCst);
+            if let Err(e) = r { std::panic::resume_unwind(e) }
+            "installed".into()
+        }
+        "MPFAIL" => {
+            let tf: F1 = unsafe { std::mem::transmute(syms.addr[t[1]] as *const ()) };
+            interpose::MPROTECT_FAIL_AT.store(interpose::MPROTECT_CALLS.load(SeqCst) + 1, SeqCst);
+            let r = catch_unwind(AssertUnwindSafe(|| inj.when_called(injectorpp::func!(fn (tf)(u64) -> u64)).will_execute_raw(fake_ptr("raw", 0))));
+            interpose::MPROTECT_FAIL_AT.store(0, SeqCst);
+            if let Err(e) = r { std::panic::resume_unwind(e) }
+            "installed".into()
+        }
         "C" => format!("val={}", syms.call(t[1], 7)),
+        "CX" => format!("val={}", syms.call(t[1], 8)),
         "P" => panic!("user-panic"),
         _ => panic!("bad op {op}"),
     }
@@ -110,6 +148,7 @@ fn live_jits(upto: usize) -> Vec<(u64, u64)> {
     live
 }
 
+pub static NOVALS: std::sync::atomic::AtomicBool = std::sync::atomic::AtomicBool::new(false);
 fn boundary(out: &mut String, id: &str, tag: &str, res: &str, ev_from: &mut usize, syms: &Syms, snap: &util::ExecSnapshot, with_diff: bool) {
     let n = interpose::len();
     let ev = interpose::dump(*ev_from, n);
@@ -120,7 +159,8 @@ fn boundary(out: &mut String, id: &str, tag: &str, res: &str, ev_from: &mut usiz
     let diff = if with_diff { snap.diff().iter().map(|(a, b)| format!("{:x}-{:x}", a, b)).collect::<Vec<_>>().join(",") } else { "skipped".into() };
     let _ = out;
     util::emit(&format!("{id} {tag} PRE RES={res} EV={ev} SNAP={} JITS={}\n", snaps.join(","), jits.join(",")));   // what happened, before anything that may crash is attempted
-    let vals: Vec<String> = syms.order.iter().filter(|s| !Syms::is_fake(s)).map(|s| format!("{}={}", s, syms.call(s, 7))).collect();
+    let vals: Vec<String> = if NOVALS.load(SeqCst) && !tag.ends_with("EXIT") { Vec::new() } else {
+        syms.order.iter().filter(|s| !Syms::is_fake(s)).map(|s| format!("{}={}", s, syms.call(s, 7))).collect() };
     util::emit(&format!("{id} {tag} RES={res} EV={ev} VALS={} SNAP={} JITS={} DIFF={}\n", vals.join(","), snaps.join(","), jits.join(","), diff));
     interpose::RECORD.store(was, SeqCst);
 }
@@ -150,7 +190,13 @@ pub fn run_history(line: &str, with_diff: bool) -> String {
             drop(inj);
         }));
         interpose::RECORD.store(false, SeqCst);
-        let res = match &r { Ok(()) => "normal".to_string(), Err(e) => format!("panic:{}", util::classify(&util::panic_msg(e))) };
+        let res = match &r { Ok(()) => "normal".to_string(), Err(e) => { let m = util::panic_msg(e); let c = util::classify(&m);
+            if c == "count" { let nums: Vec<String> = m.split(|ch: char| !ch.is_ascii_digit()).filter(|x| !x.is_empty()).map(|x| x.to_string()).collect(); format!("panic:count:{}", nums.join(":")) } else { format!("panic:{c}") } } };
+        // the process-wide guard must be usable from another thread afterwards
+        let (tx, rx) = std::sync::mpsc::channel();
+        std::thread::spawn(move || { let i = InjectorPP::new(); drop(i); let _ = tx.send(()); });
+        let lock = if rx.recv_timeout(std::time::Duration::from_secs(3)).is_ok() { "ok" } else { "timeout" };
+        let res = format!("{res};panics={};lock={lock}", PANICS.swap(0, SeqCst));
         boundary(&mut out, id, &format!("L{li} EXIT"), &res, &mut ev_from, &syms, &snap, true);
     }
     let rwx1 = util::rwx_anon();
@@ -159,7 +205,8 @@ pub fn run_history(line: &str, with_diff: bool) -> String {
 }
 
 pub fn main(args: &[String]) {
-    std::panic::set_hook(Box::new(|_| {}));
+    std::panic::set_hook(Box::new(|_| { PANICS.fetch_add(1, SeqCst); }));
+    NOVALS.store(args.iter().any(|a| a == "--novals"), SeqCst);
     let fork = args.iter().any(|a| a == "--fork");
     let with_diff = !args.iter().any(|a| a == "--nodiff");
     let stdin = std::io::stdin();
